@@ -619,6 +619,22 @@ def c06_5(ctx: Ctx) -> RuleResult:
     ok = any(a[0] == "mut" and a[2] == "setflags" and contains(a[1], lambda s: s[0] == "call" and s[1][0] == "attr" and s[1][2] == "copy") and
              any(k == "write" and v == C(False) for k, v in a[3][3]) for a in alts(rt))
     res.add(ic, ic.node, "_immutable_copy returns data.copy() with the writeable flag cleared", ok, "" if ok else f"returns `{show(rt, 100)}`", construct="_immutable_copy definition")
+    # the argument is passed through unchanged only when it is None
+    dp = ("param", ic.qualname, ic.positional[0])
+    passthrough = [a for a in alts(rt) if a == dp]
+    guard_ok = True
+    why = ""
+    if passthrough:
+        guards = [n for n in nodes_in(ic, ast.If) if any(isinstance(x, ast.Call) and isinstance(x.func, ast.Attribute) and x.func.attr == "copy" for s_ in n.body for x in ast.walk(s_))]
+        guard_ok = bool(guards)
+        for g in guards:
+            gt = norm(X.at(ic, g.test))
+            if gt != ("cmp", "is not", dp, C(None)):
+                guard_ok = False
+                why = f"the copy is made only under `{ast.unparse(g.test)}`: other (non-None) arrays are returned as they are, sharing memory with the caller"
+        if not guards:
+            why = "the argument can be returned unchanged"
+    res.add(ic, ic.node, "every non-None argument is copied (the only pass-through is None)", guard_ok, why, construct="_immutable_copy: copies every array")
     for c in classes:
         pi = c.methods.get("__post_init__")
         for name, (ann, _d) in c.fields.items():
